@@ -158,6 +158,11 @@ def drain (cmp : Nat → Nat → Int) : Nat → PQueue → List Nat
     | (_, some x, q', _) => x :: drain cmp fuel q'
     | (_, none, _, _) => []
 
+/-- push a list of elements one after the other (statuses ignored) -/
+def pushAll (cmp : Nat → Nat → Int) (grow : Nat → Nat) (q : PQueue) : List Nat → Mem → PQueue × Mem
+  | [], m => (q, m)
+  | x :: xs, m => let r := push cmp grow q x m; pushAll cmp grow r.2.1 xs r.2.2
+
 open Spec.PQ (Op Out) in
 def step (cmp : Nat → Nat → Int) (grow : Nat → Nat) (q : PQueue) (op : Op) (m : Mem) : Out × PQueue × Mem :=
   match op with
